@@ -2,6 +2,8 @@ import SpVerif.Proofs.Mutation
 import SpVerif.Props.C02
 import SpVerif.Props.C03
 import SpVerif.Props.C06Fixed
+import SpVerif.Props.C06Var
+import SpVerif.Props.C08
 import SpVerif.Props.C07
 import SpVerif.Props.C17
 /-!
@@ -1038,6 +1040,530 @@ theorem C11_frame_fresh (f : Frame)
 
 end Uslp
 
+/-! ## EOF PDU (`fault_location`) -/
+section Eof
+open SpVerif.CfdpHeader SpVerif.FileDirective SpVerif.Eof SpVerif.Tlv
+
+/-- the cached data-field length agrees with large-file flag, CRC flag and fault location (and
+    fits 16 bits); the checksum has its four octets; ID widths agree -/
+def EofInv (k : Eof) : Prop :=
+  k.fd.header.conf.dest.width = k.fd.header.conf.source.width ∧ k.fd.header.dataFieldLen ≤ 65535 ∧
+  k.checksum.length = 4 ∧
+  k.fd.header.dataFieldLen = eofParamLen k.fd.header.conf.fileFlag k.fd.header.conf.crcFlag k.faultLoc + 1
+
+instance (k : Eof) : Decidable (EofInv k) := by unfold EofInv; infer_instance
+
+/-- "is a constructor image": additionally file-directive type, EOF directive code, direction
+    towards the receiver -/
+def EofBuilt (k : Eof) : Prop :=
+  EofInv k ∧ k.fd.header.pduType = 0 ∧ k.fd.header.segMeta = 0 ∧ k.fd.code = 4 ∧ k.fd.header.conf.direction = 0
+
+instance (k : Eof) : Decidable (EofBuilt k) := by unfold EofBuilt; infer_instance
+
+theorem C11_eof_init (c : PduConfig) (cs : Bytes) (size : Int) (fl : Option EntityIdTlv) (cond : Int) (k : Eof)
+    (h : Eof.new c cs size fl cond = .ok k) :
+    EofBuilt k ∧ k.faultLoc = fl ∧ k.fd.header.conf = { c with direction := 0 } := by
+  rw [Eof.new_eq] at h
+  split at h
+  · cases h
+  · rename_i g1
+    split at h
+    · cases h
+    · rename_i g2
+      have := Except.ok.inj h
+      subst this
+      exact ⟨⟨⟨by simp only; omega, by simp only; omega, by simp only; omega, rfl⟩, rfl, rfl, rfl, rfl⟩, rfl, rfl⟩
+
+/-- **the setter, completely**: refused (`ValueError`, PDU unchanged) exactly when the new
+    data-field length would exceed 16 bits; otherwise fault location and cached length change together -/
+theorem C11_eof_step_spec (k : Eof) (fl : Option EntityIdTlv) :
+    eofStep k (.faultLoc fl) =
+      if 65535 < eofParamLen k.fd.header.conf.fileFlag k.fd.header.conf.crcFlag fl + 1 then (k, some .value)
+      else ({ k with faultLoc := fl, fd := { k.fd with header := { k.fd.header with
+        dataFieldLen := eofParamLen k.fd.header.conf.fileFlag k.fd.header.conf.crcFlag fl + 1 } } }, none) := by
+  show (match k.setFaultLoc fl with | .ok k' => (k', none) | .error e => (k, some e)) = _
+  rw [setFaultLoc_eq]
+  by_cases g : 65535 < eofParamLen k.fd.header.conf.fileFlag k.fd.header.conf.crcFlag fl + 1
+  · rw [if_pos g, if_pos g]
+  · rw [if_neg g, if_neg g]
+
+theorem C11_eof_step (k : Eof) (o : EofOp) (h : EofBuilt k) :
+    EofBuilt (eofStep k o).1 ∧ ((eofStep k o).2 ≠ none → (eofStep k o).1 = k) ∧
+    (eofStep k o).1.cond = k.cond ∧ (eofStep k o).1.checksum = k.checksum ∧ (eofStep k o).1.fileSize = k.fileSize ∧
+    (eofStep k o).1.fd.header.conf = k.fd.header.conf := by
+  obtain ⟨⟨hw, hle, hcs, hd⟩, h1, h2, h3, h4⟩ := h
+  cases o with
+  | faultLoc fl =>
+    rw [C11_eof_step_spec]
+    split
+    · exact ⟨⟨⟨hw, hle, hcs, hd⟩, h1, h2, h3, h4⟩, fun _ => rfl, rfl, rfl, rfl, rfl⟩
+    · exact ⟨⟨⟨hw, by simp only; omega, hcs, rfl⟩, h1, h2, h3, h4⟩, fun hne => absurd rfl hne, rfl, rfl, rfl, rfl⟩
+
+theorem C11_eof_reach (k : Eof) (ops : List EofOp) (h : EofBuilt k) : EofBuilt (eofMachine.run k ops) :=
+  C11_reach eofMachine EofBuilt (fun s o hs => (C11_eof_step s o hs).1) k ops h
+
+private theorem eof_packFault_len {fl : Option EntityIdTlv} {b : Bytes} (h : Eof.packFaultLoc fl = .ok b) :
+    b.length = Eof.faultLen fl := by
+  cases fl with
+  | none => cases h; rfl
+  | some t => exact CfdpTlv.pack_length t.tlv b h
+
+/-- **reported length = packed length, and the length field says so** -/
+theorem C11_eof_pack_len (k : Eof) (h : EofInv k) (b : Bytes) (k' : Eof) (hp : eofPack k = .ok (b, k')) :
+    b.length = k.packetLen ∧ beNat ((b.drop 1).take 2) = b.length - k.fd.header.headerLen := by
+  obtain ⟨hw, hle, hcs, hd⟩ := h
+  unfold eofPack at hp
+  obtain ⟨b0, hp0, hp⟩ := bind_ok_inv hp
+  have eb : b0 = b := congrArg Prod.fst (pure_ok_inv hp)
+  subst eb
+  unfold Eof.pack at hp0
+  obtain ⟨d, hdp, hp0⟩ := bind_ok_inv hp0
+  obtain ⟨c, _, hp0⟩ := bind_ok_inv hp0
+  obtain ⟨sz, hsz, hp0⟩ := bind_ok_inv hp0
+  obtain ⟨fl, hfl, hp0⟩ := bind_ok_inv hp0
+  have eb := pure_ok_inv hp0
+  obtain ⟨ld, lf⟩ := fd_pack_inv hdp hw
+  have lsz := packInt_len hsz
+  have lfl := eof_packFault_len hfl
+  have h4 := headerLen_ge k.fd.header
+  have hwid : (if k.fd.header.largeFileFlagSet = true then 8 else 4) = fssWidth k.fd.header.conf.fileFlag := by
+    unfold PduHeader.largeFileFlagSet fssWidth
+    by_cases hf : k.fd.header.conf.fileFlag = 1 <;> simp [hf]
+  rw [hwid] at lsz
+  have hlen : b0.length = k.fd.header.headerLen + 1 + 1 + 4 + fssWidth k.fd.header.conf.fileFlag
+      + Eof.faultLen k.faultLoc + (if k.fd.header.conf.crcFlag = 1 then 2 else 0) := by
+    rw [← eb, withCrc_length]
+    simp only [List.length_append, List.length_cons, List.length_nil, ld, lsz, lfl, hcs]
+  have hfield : (b0.drop 1).take 2 =
+      [u8 (k.fd.header.dataFieldLen / 256 % 256), u8 (k.fd.header.dataFieldLen % 256)] := by
+    rw [← eb, withCrc_len_field _ _ (by simp only [List.length_append, ld]; omega), List.append_assoc,
+      List.append_assoc, List.append_assoc, List.drop_append_of_le_length (by omega),
+      List.take_append_of_le_length (by simp; omega), lf]
+  have hpl : k.packetLen = k.fd.header.dataFieldLen + k.fd.header.headerLen := rfl
+  have hd' : k.fd.header.dataFieldLen = 5 + fssWidth k.fd.header.conf.fileFlag + Eof.faultLen k.faultLoc
+      + (if k.fd.header.conf.crcFlag = 1 then 2 else 0) + 1 := hd
+  refine ⟨by omega, ?_⟩
+  rw [lenfield_val _ _ hle hfield]
+  omega
+
+/-- **pack is repeatable**: no cache — the post-state is the object itself -/
+theorem C11_eof_pack_idem (k : Eof) (b : Bytes) (k' : Eof) (hp : eofPack k = .ok (b, k')) :
+    k' = k ∧ eofPack k' = .ok (b, k') := by
+  have hk : k' = k := by
+    unfold eofPack at hp
+    obtain ⟨b0, _, hp⟩ := bind_ok_inv hp
+    exact (congrArg Prod.snd (pure_ok_inv hp)).symm
+  subst hk
+  exact ⟨rfl, hp⟩
+
+private theorem eof_built_new (k : Eof) (h : EofBuilt k) :
+    Eof.new k.fd.header.conf k.checksum k.fileSize k.faultLoc k.cond = .ok k := by
+  obtain ⟨⟨⟨pt, sm, dfl, ⟨src, dst, seq, tm, ff, crc, dir, sc⟩⟩, code⟩, cond, cs, size, fl⟩ := k
+  obtain ⟨⟨hw, hle, hcs, hd⟩, h1, h2, h3, h4⟩ := h
+  simp only at hw hle hcs hd h1 h2 h3 h4
+  subst h1 h2 h3 h4 hd
+  rw [Eof.new_eq, if_neg (show ¬ cs.length ≠ 4 by omega)]
+  refine (if_neg ?_).trans rfl
+  simp only
+  omega
+
+/-- **same as a fresh object**: after any sequence of setter calls on a constructed EOF PDU,
+    the constructor applied to the object's own final values gives exactly this object -/
+theorem C11_eof_fresh (c : PduConfig) (cs : Bytes) (size : Int) (fl : Option EntityIdTlv) (cond : Int) (k : Eof)
+    (h : Eof.new c cs size fl cond = .ok k) (ops : List EofOp) :
+    Eof.new (eofMachine.run k ops).fd.header.conf (eofMachine.run k ops).checksum (eofMachine.run k ops).fileSize
+      (eofMachine.run k ops).faultLoc (eofMachine.run k ops).cond = .ok (eofMachine.run k ops) :=
+  eof_built_new _ (C11_eof_reach k ops (C11_eof_init c cs size fl cond k h).1)
+
+end Eof
+
+/-! ## Finished PDU (`file_store_responses`, `fault_location`, `condition_code`) -/
+section Finished
+open SpVerif.CfdpHeader SpVerif.FileDirective SpVerif.Finished SpVerif.Tlv
+
+/-- the cached data-field length agrees with CRC flag, condition code (a fault location is
+    counted only when the code can have one), responses and fault location, and fits 16 bits -/
+def FinInv (s : FinS) : Prop :=
+  s.obj.fd.header.conf.dest.width = s.obj.fd.header.conf.source.width ∧ s.obj.fd.header.dataFieldLen ≤ 65535 ∧
+  s.obj.fd.header.dataFieldLen
+    = finParamLen s.obj.fd.header.conf.crcFlag s.obj.cond s.obj.responses s.obj.faultLoc + 1
+
+instance (s : FinS) : Decidable (FinInv s) := by unfold FinInv; infer_instance
+
+def FinBuilt (s : FinS) : Prop :=
+  FinInv s ∧ s.obj.fd.header.pduType = 0 ∧ s.obj.fd.header.segMeta = 0 ∧ s.obj.fd.code = 5 ∧
+  s.obj.fd.header.conf.direction = 1
+
+instance (s : FinS) : Decidable (FinBuilt s) := by unfold FinBuilt; infer_instance
+
+theorem C11_fin_init (c : PduConfig) (cond : Int) (dc fs : Nat) (rs : List FileStoreResponseTlv)
+    (fl : Option EntityIdTlv) (k : Finished) (h : Finished.new c cond dc fs rs fl = .ok k) :
+    FinBuilt (FinS.ofNew k) ∧ k.responses = rs ∧ k.faultLoc = fl ∧ k.fd.header.conf = { c with direction := 1 } := by
+  rw [Finished.new_eq] at h
+  split at h
+  · cases h
+  · rename_i g
+    have := Except.ok.inj h
+    subst this
+    exact ⟨⟨⟨by simp only [FinS.ofNew]; omega, by simp only [FinS.ofNew]; omega, rfl⟩, rfl, rfl, rfl, rfl⟩, rfl, rfl, rfl⟩
+
+/-- **the setters, completely**: each is refused (`ValueError`, object and caches unchanged)
+    exactly when the new data-field length would exceed 16 bits -/
+theorem C11_fin_step_spec (s : FinS) :
+    (∀ c, finStep s (.cond c) =
+      if 65535 < finParamLen s.obj.fd.header.conf.crcFlag c s.obj.responses s.obj.faultLoc + 1 then (s, some .value)
+      else ({ s with obj := { s.obj with cond := c, fd := { s.obj.fd with header := { s.obj.fd.header with
+        dataFieldLen := finParamLen s.obj.fd.header.conf.crcFlag c s.obj.responses s.obj.faultLoc + 1 } } } }, none)) ∧
+    (∀ rs, finStep s (.responses rs) =
+      if 65535 < finParamLen s.obj.fd.header.conf.crcFlag s.obj.cond (rs.getD []) s.obj.faultLoc + 1 then (s, some .value)
+      else (FinS.ofNew { s.obj with responses := rs.getD [], fd := { s.obj.fd with header := { s.obj.fd.header with
+        dataFieldLen := finParamLen s.obj.fd.header.conf.crcFlag s.obj.cond (rs.getD []) s.obj.faultLoc + 1 } } }, none)) ∧
+    (∀ fl, finStep s (.faultLoc fl) =
+      if 65535 < finParamLen s.obj.fd.header.conf.crcFlag s.obj.cond s.obj.responses fl + 1 then (s, some .value)
+      else ({ s with obj := { s.obj with faultLoc := fl, fd := { s.obj.fd with header := { s.obj.fd.header with
+        dataFieldLen := finParamLen s.obj.fd.header.conf.crcFlag s.obj.cond s.obj.responses fl + 1 } } } }, none)) := by
+  refine ⟨fun c => ?_, fun rs => ?_, fun fl => ?_⟩
+  · show (match s.obj.setCond c with | .ok k' => ({ s with obj := k' }, none) | .error e => (s, some e)) = _
+    rw [setCond_eq]
+    by_cases g : 65535 < finParamLen s.obj.fd.header.conf.crcFlag c s.obj.responses s.obj.faultLoc + 1
+    · rw [if_pos g, if_pos g]
+    · rw [if_neg g, if_neg g]
+  · show (match s.obj.setResponses rs with | .ok k' => (FinS.ofNew k', none) | .error e => (s, some e)) = _
+    rw [setResponses_eq]
+    by_cases g : 65535 < finParamLen s.obj.fd.header.conf.crcFlag s.obj.cond (rs.getD []) s.obj.faultLoc + 1
+    · rw [if_pos g, if_pos g]
+    · rw [if_neg g, if_neg g]
+  · show (match s.obj.setFaultLoc fl with | .ok k' => ({ s with obj := k' }, none) | .error e => (s, some e)) = _
+    rw [setFaultLoc_eq]
+    by_cases g : 65535 < finParamLen s.obj.fd.header.conf.crcFlag s.obj.cond s.obj.responses fl + 1
+    · rw [if_pos g, if_pos g]
+    · rw [if_neg g, if_neg g]
+
+theorem C11_fin_step (s : FinS) (o : FinOp) (h : FinBuilt s) :
+    FinBuilt (finStep s o).1 ∧ ((finStep s o).2 ≠ none → (finStep s o).1 = s) ∧
+    (finStep s o).1.obj.delivery = s.obj.delivery ∧ (finStep s o).1.obj.status = s.obj.status ∧
+    (finStep s o).1.obj.fd.header.conf = s.obj.fd.header.conf := by
+  obtain ⟨⟨hw, hle, hd⟩, h1, h2, h3, h4⟩ := h
+  obtain ⟨s1, s2, s3⟩ := C11_fin_step_spec s
+  cases o with
+  | cond c =>
+    rw [s1 c]
+    split
+    · exact ⟨⟨⟨hw, hle, hd⟩, h1, h2, h3, h4⟩, fun _ => rfl, rfl, rfl, rfl⟩
+    · exact ⟨⟨⟨hw, by simp only; omega, rfl⟩, h1, h2, h3, h4⟩, fun hne => absurd rfl hne, rfl, rfl, rfl⟩
+  | responses rs =>
+    rw [s2 rs]
+    split
+    · exact ⟨⟨⟨hw, hle, hd⟩, h1, h2, h3, h4⟩, fun _ => rfl, rfl, rfl, rfl⟩
+    · exact ⟨⟨⟨hw, by simp only [FinS.ofNew]; omega, rfl⟩, h1, h2, h3, h4⟩, fun hne => absurd rfl hne, rfl, rfl, rfl⟩
+  | faultLoc fl =>
+    rw [s3 fl]
+    split
+    · exact ⟨⟨⟨hw, hle, hd⟩, h1, h2, h3, h4⟩, fun _ => rfl, rfl, rfl, rfl⟩
+    · exact ⟨⟨⟨hw, by simp only; omega, rfl⟩, h1, h2, h3, h4⟩, fun hne => absurd rfl hne, rfl, rfl, rfl⟩
+
+theorem C11_fin_reach (s : FinS) (ops : List FinOp) (h : FinBuilt s) : FinBuilt (finMachine.run s ops) :=
+  C11_reach finMachine FinBuilt (fun s o hs => (C11_fin_step s o hs).1) s ops h
+
+private theorem packResponses_len : ∀ {l : List FileStoreResponseTlv} {b : Bytes}, packResponses l = .ok b →
+    b.length = responsesLen l
+  | [], b, h => by cases h; rfl
+  | r :: l, b, h => by
+    unfold packResponses at h
+    obtain ⟨x, hx, h⟩ := bind_ok_inv h
+    obtain ⟨rest, hr, h⟩ := bind_ok_inv h
+    have := pure_ok_inv h
+    subst this
+    simp only [List.length_append, responsesLen, FileStoreResponseTlv.pack_length r x hx, packResponses_len hr]
+
+private theorem fin_packFault_len {cond : Int} {fl : Option EntityIdTlv} {b : Bytes}
+    (h : Finished.packFaultLoc cond fl = .ok b) : b.length = Finished.faultLen cond fl := by
+  cases fl with
+  | none => cases h; rfl
+  | some t =>
+    show b.length = if mightHaveFaultLoc cond then t.packetLen else 0
+    have h' : (if mightHaveFaultLoc cond then t.pack else pure []) = .ok b := h
+    by_cases g : mightHaveFaultLoc cond = true
+    · rw [if_pos g] at h' ⊢; exact CfdpTlv.pack_length t.tlv b h'
+    · rw [if_neg g] at h' ⊢; cases h'; rfl
+
+/-- the octets of the state machine's `pack` are those of the owning model's `Finished.pack`: the
+    caches never influence them -/
+theorem C11_fin_pack_octets (s : FinS) (b : Bytes) (s' : FinS) (hp : s.pack = .ok (b, s')) : s.obj.pack = .ok b := by
+  unfold FinS.pack at hp
+  obtain ⟨b0, hp0, hp⟩ := bind_ok_inv hp
+  obtain ⟨cs, _, hp⟩ := bind_ok_inv hp
+  have eb : b0 = b := congrArg Prod.fst (pure_ok_inv hp)
+  rw [← eb]; exact hp0
+
+/-- **reported length = packed length, and the length field says so** -/
+theorem C11_fin_pack_len (s : FinS) (h : FinInv s) (b : Bytes) (s' : FinS) (hp : s.pack = .ok (b, s')) :
+    b.length = s.reported ∧ beNat ((b.drop 1).take 2) = b.length - s.obj.fd.header.headerLen := by
+  obtain ⟨hw, hle, hd⟩ := h
+  have hp0 := C11_fin_pack_octets s b s' hp
+  unfold Finished.pack at hp0
+  obtain ⟨d, hdp, hp0⟩ := bind_ok_inv hp0
+  by_cases hneg : s.obj.cond < 0
+  · simp [hneg, bind, Except.bind, throw, throwThe, MonadExceptOf.throw] at hp0
+  · simp only [hneg, ↓reduceIte] at hp0
+    obtain ⟨x, _, hp0⟩ := bind_ok_inv hp0
+    obtain ⟨rs, hrs, hp0⟩ := bind_ok_inv hp0
+    obtain ⟨fl, hfl, hp0⟩ := bind_ok_inv hp0
+    have eb := pure_ok_inv hp0
+    obtain ⟨ld, lf⟩ := fd_pack_inv hdp hw
+    have lrs := packResponses_len hrs
+    have lfl := fin_packFault_len hfl
+    have h4 := headerLen_ge s.obj.fd.header
+    have hlen : b.length = s.obj.fd.header.headerLen + 1 + 1 + responsesLen s.obj.responses
+        + Finished.faultLen s.obj.cond s.obj.faultLoc + (if s.obj.fd.header.conf.crcFlag = 1 then 2 else 0) := by
+      rw [← eb, withCrc_length]
+      simp only [List.length_append, List.length_cons, List.length_nil, ld, lrs, lfl]
+    have hfield : (b.drop 1).take 2 =
+        [u8 (s.obj.fd.header.dataFieldLen / 256 % 256), u8 (s.obj.fd.header.dataFieldLen % 256)] := by
+      rw [← eb, withCrc_len_field _ _ (by simp only [List.length_append, ld]; omega), List.append_assoc,
+        List.append_assoc, List.drop_append_of_le_length (by omega),
+        List.take_append_of_le_length (by simp; omega), lf]
+    have hpl : s.reported = s.obj.fd.header.dataFieldLen + s.obj.fd.header.headerLen := rfl
+    have hd' : s.obj.fd.header.dataFieldLen = (if s.obj.fd.header.conf.crcFlag = 1 then 3 else 1)
+        + Finished.faultLen s.obj.cond s.obj.faultLoc + responsesLen s.obj.responses + 1 := hd
+    have hsplit : (if s.obj.fd.header.conf.crcFlag = 1 then 3 else 1)
+        = 1 + (if s.obj.fd.header.conf.crcFlag = 1 then 2 else 0) := by split <;> rfl
+    refine ⟨by omega, ?_⟩
+    rw [lenfield_val _ _ hle hfield]
+    omega
+
+/-- **pack is repeatable**: packing the post-state gives the same octets and the same post-state;
+    pre- and post-state differ in the filestore-response TLV caches only, which `==` never looks
+    at: every equality verdict against any other object is the same before and after -/
+theorem C11_fin_pack_idem (s : FinS) (b : Bytes) (s' : FinS) (hp : s.pack = .ok (b, s')) :
+    s'.pack = .ok (b, s') ∧ s'.obj = s.obj ∧ ∀ x, FinS.beq x s' = FinS.beq x s ∧ FinS.beq s' x = FinS.beq s x := by
+  have hp' := hp
+  unfold FinS.pack at hp
+  obtain ⟨b0, hp0, hp⟩ := bind_ok_inv hp
+  obtain ⟨cs, hcs, hp⟩ := bind_ok_inv hp
+  have e := pure_ok_inv hp
+  have eb : b0 = b := congrArg Prod.fst e
+  have es : s' = { s with cache := cs.map some } := (congrArg Prod.snd e).symm
+  have ho : s'.obj = s.obj := by rw [es]
+  refine ⟨?_, ho, fun x => ⟨by simp only [FinS.beq, ho], by simp only [FinS.beq, ho]⟩⟩
+  subst es eb
+  simp only [FinS.pack, hp0, hcs, bind, Except.bind, pure, Except.pure]
+
+private theorem fin_built_new (s : FinS) (h : FinBuilt s) :
+    Finished.new s.obj.fd.header.conf s.obj.cond s.obj.delivery s.obj.status s.obj.responses s.obj.faultLoc = .ok s.obj := by
+  obtain ⟨⟨⟨⟨pt, sm, dfl, ⟨src, dst, seq, tm, ff, crc, dir, sc⟩⟩, code⟩, cond, dc, fs, rs, fl⟩, cache⟩ := s
+  obtain ⟨⟨hw, hle, hd⟩, h1, h2, h3, h4⟩ := h
+  simp only at hw hle hd h1 h2 h3 h4
+  subst h1 h2 h3 h4 hd
+  rw [Finished.new_eq]
+  refine (if_neg ?_).trans rfl
+  simp only
+  omega
+
+/-- **same as a fresh object**: after any sequence of setter calls on a constructed Finished PDU,
+    the constructor applied to the object's own final values gives exactly this PDU -/
+theorem C11_fin_fresh (c : PduConfig) (cond : Int) (dc fs : Nat) (rs : List FileStoreResponseTlv)
+    (fl : Option EntityIdTlv) (k : Finished) (h : Finished.new c cond dc fs rs fl = .ok k) (ops : List FinOp) :
+    Finished.new (finMachine.run (FinS.ofNew k) ops).obj.fd.header.conf (finMachine.run (FinS.ofNew k) ops).obj.cond
+      (finMachine.run (FinS.ofNew k) ops).obj.delivery (finMachine.run (FinS.ofNew k) ops).obj.status
+      (finMachine.run (FinS.ofNew k) ops).obj.responses (finMachine.run (FinS.ofNew k) ops).obj.faultLoc
+        = .ok (finMachine.run (FinS.ofNew k) ops).obj :=
+  fin_built_new _ (C11_fin_reach _ ops (C11_fin_init c cond dc fs rs fl k h).1)
+
+end Finished
+
+/-! ## Metadata PDU (`options`, `source_file_name`, `dest_file_name`) -/
+section Metadata
+open SpVerif.CfdpHeader SpVerif.FileDirective SpVerif.Metadata SpVerif.Tlv SpVerif.Lv
+
+/-- the cached data-field length agrees with the flags, both file-name LVs and the options, and
+    fits 16 bits -/
+def MdInv (k : Metadata) : Prop :=
+  k.fd.header.conf.dest.width = k.fd.header.conf.source.width ∧ k.fd.header.dataFieldLen ≤ 65535 ∧
+  k.fd.header.dataFieldLen
+    = mdParamLen k.fd.header.conf.fileFlag k.fd.header.conf.crcFlag k.srcLv k.dstLv k.options + 1
+
+instance (k : Metadata) : Decidable (MdInv k) := by unfold MdInv; infer_instance
+
+def MdBuilt (k : Metadata) : Prop :=
+  MdInv k ∧ k.fd.header.pduType = 0 ∧ k.fd.header.segMeta = 0 ∧ k.fd.code = 7 ∧ k.fd.header.conf.direction = 0 ∧
+  k.srcLv.value.length ≤ 255 ∧ k.dstLv.value.length ≤ 255
+
+instance (k : Metadata) : Decidable (MdBuilt k) := by unfold MdBuilt; infer_instance
+
+theorem C11_md_init (c : PduConfig) (cl : Bool) (ct : Nat) (size : Int) (src dst : Option Bytes)
+    (opts : Option (List AnyTlv)) (k : Metadata) (h : Metadata.new c cl ct size src dst opts = .ok k) :
+    MdBuilt k ∧ k.options = opts ∧ k.srcLv.value = nameOctets src ∧ k.dstLv.value = nameOctets dst ∧
+    k.fd.header.conf = { c with direction := 0 } := by
+  rw [Metadata.new_eq] at h
+  split at h
+  · cases h
+  · rename_i g1
+    split at h
+    · cases h
+    · rename_i g2
+      have := Except.ok.inj h
+      subst this
+      exact ⟨⟨⟨by simp only; omega, by simp only; omega, rfl⟩, rfl, rfl, rfl, rfl, by simp only; omega, by simp only; omega⟩,
+        rfl, rfl, rfl, rfl⟩
+
+/-- **the setters, completely**: a file name of more than 255 octets is refused before anything
+    is assigned; every setter is refused (`ValueError`, PDU unchanged) when the new data-field
+    length would exceed 16 bits -/
+theorem C11_md_step_spec (k : Metadata) :
+    (∀ o, mdStep k (.options o) =
+      if 65535 < mdParamLen k.fd.header.conf.fileFlag k.fd.header.conf.crcFlag k.srcLv k.dstLv o + 1 then (k, some .value)
+      else ({ k with options := o, fd := { k.fd with header := { k.fd.header with
+        dataFieldLen := mdParamLen k.fd.header.conf.fileFlag k.fd.header.conf.crcFlag k.srcLv k.dstLv o + 1 } } }, none)) ∧
+    (∀ n, mdStep k (.srcName n) =
+      if 255 < (nameOctets n).length ∨
+        65535 < mdParamLen k.fd.header.conf.fileFlag k.fd.header.conf.crcFlag ⟨nameOctets n⟩ k.dstLv k.options + 1
+      then (k, some .value)
+      else ({ k with srcLv := ⟨nameOctets n⟩, fd := { k.fd with header := { k.fd.header with
+        dataFieldLen :=
+          mdParamLen k.fd.header.conf.fileFlag k.fd.header.conf.crcFlag ⟨nameOctets n⟩ k.dstLv k.options + 1 } } }, none)) ∧
+    (∀ n, mdStep k (.dstName n) =
+      if 255 < (nameOctets n).length ∨
+        65535 < mdParamLen k.fd.header.conf.fileFlag k.fd.header.conf.crcFlag k.srcLv ⟨nameOctets n⟩ k.options + 1
+      then (k, some .value)
+      else ({ k with dstLv := ⟨nameOctets n⟩, fd := { k.fd with header := { k.fd.header with
+        dataFieldLen :=
+          mdParamLen k.fd.header.conf.fileFlag k.fd.header.conf.crcFlag k.srcLv ⟨nameOctets n⟩ k.options + 1 } } }, none)) := by
+  refine ⟨fun o => ?_, fun n => ?_, fun n => ?_⟩
+  · show (match k.setOptions o with | .ok k' => (k', none) | .error e => (k, some e)) = _
+    rw [setOptions_eq]
+    by_cases g : 65535 < mdParamLen k.fd.header.conf.fileFlag k.fd.header.conf.crcFlag k.srcLv k.dstLv o + 1
+    · rw [if_pos g, if_pos g]
+    · rw [if_neg g, if_neg g]
+  · show (match k.setSrcName n with | .ok k' => (k', none) | .error e => (k, some e)) = _
+    rw [setSrcName_eq]
+    by_cases g : 255 < (nameOctets n).length ∨
+        65535 < mdParamLen k.fd.header.conf.fileFlag k.fd.header.conf.crcFlag ⟨nameOctets n⟩ k.dstLv k.options + 1
+    · rw [if_pos g, if_pos g]
+    · rw [if_neg g, if_neg g]
+  · show (match k.setDstName n with | .ok k' => (k', none) | .error e => (k, some e)) = _
+    rw [setDstName_eq]
+    by_cases g : 255 < (nameOctets n).length ∨
+        65535 < mdParamLen k.fd.header.conf.fileFlag k.fd.header.conf.crcFlag k.srcLv ⟨nameOctets n⟩ k.options + 1
+    · rw [if_pos g, if_pos g]
+    · rw [if_neg g, if_neg g]
+
+theorem C11_md_step (k : Metadata) (o : MdOp) (h : MdBuilt k) :
+    MdBuilt (mdStep k o).1 ∧ ((mdStep k o).2 ≠ none → (mdStep k o).1 = k) ∧
+    (mdStep k o).1.closure = k.closure ∧ (mdStep k o).1.checksumType = k.checksumType ∧
+    (mdStep k o).1.fileSize = k.fileSize ∧ (mdStep k o).1.fd.header.conf = k.fd.header.conf := by
+  obtain ⟨⟨hw, hle, hd⟩, h1, h2, h3, h4, h5, h6⟩ := h
+  obtain ⟨s1, s2, s3⟩ := C11_md_step_spec k
+  cases o with
+  | options o =>
+    rw [s1 o]
+    split
+    · exact ⟨⟨⟨hw, hle, hd⟩, h1, h2, h3, h4, h5, h6⟩, fun _ => rfl, rfl, rfl, rfl, rfl⟩
+    · exact ⟨⟨⟨hw, by simp only; omega, rfl⟩, h1, h2, h3, h4, h5, h6⟩, fun hne => absurd rfl hne, rfl, rfl, rfl, rfl⟩
+  | srcName n =>
+    rw [s2 n]
+    split
+    · exact ⟨⟨⟨hw, hle, hd⟩, h1, h2, h3, h4, h5, h6⟩, fun _ => rfl, rfl, rfl, rfl, rfl⟩
+    · exact ⟨⟨⟨hw, by simp only; omega, rfl⟩, h1, h2, h3, h4, by simp only; omega, h6⟩,
+        fun hne => absurd rfl hne, rfl, rfl, rfl, rfl⟩
+  | dstName n =>
+    rw [s3 n]
+    split
+    · exact ⟨⟨⟨hw, hle, hd⟩, h1, h2, h3, h4, h5, h6⟩, fun _ => rfl, rfl, rfl, rfl, rfl⟩
+    · exact ⟨⟨⟨hw, by simp only; omega, rfl⟩, h1, h2, h3, h4, h5, by simp only; omega⟩,
+        fun hne => absurd rfl hne, rfl, rfl, rfl, rfl⟩
+
+theorem C11_md_reach (k : Metadata) (ops : List MdOp) (h : MdBuilt k) : MdBuilt (mdMachine.run k ops) :=
+  C11_reach mdMachine MdBuilt (fun s o hs => (C11_md_step s o hs).1) k ops h
+
+private theorem packOptions_len : ∀ {l : List AnyTlv} {b : Bytes}, packOptions l = .ok b → b.length = optionsLen l
+  | [], b, h => by cases h; rfl
+  | t :: l, b, h => by
+    unfold packOptions at h
+    obtain ⟨x, hx, h⟩ := bind_ok_inv h
+    obtain ⟨rest, hr, h⟩ := bind_ok_inv h
+    have := pure_ok_inv h
+    subst this
+    simp only [List.length_append, optionsLen, C08.C08_packet_len t x hx, packOptions_len hr]
+
+/-- **reported length = packed length, and the length field says so** -/
+theorem C11_md_pack_len (k : Metadata) (h : MdInv k) (b : Bytes) (k' : Metadata) (hp : mdPack k = .ok (b, k')) :
+    b.length = k.packetLen ∧ beNat ((b.drop 1).take 2) = b.length - k.fd.header.headerLen := by
+  obtain ⟨hw, hle, hd⟩ := h
+  unfold mdPack at hp
+  obtain ⟨b0, hp0, hp⟩ := bind_ok_inv hp
+  have eb : b0 = b := congrArg Prod.fst (pure_ok_inv hp)
+  subst eb
+  unfold Metadata.pack at hp0
+  obtain ⟨_, _, hp0⟩ := bind_ok_inv hp0
+  obtain ⟨d, hdp, hp0⟩ := bind_ok_inv hp0
+  obtain ⟨x, _, hp0⟩ := bind_ok_inv hp0
+  obtain ⟨sz, hsz, hp0⟩ := bind_ok_inv hp0
+  obtain ⟨sv, hsv, hp0⟩ := bind_ok_inv hp0
+  obtain ⟨tv, htv, hp0⟩ := bind_ok_inv hp0
+  obtain ⟨ov, hov, hp0⟩ := bind_ok_inv hp0
+  have eb := pure_ok_inv hp0
+  obtain ⟨ld, lf⟩ := fd_pack_inv hdp hw
+  have lsz := packInt_len hsz
+  have lsv := CfdpLv.pack_length _ _ hsv
+  have ltv := CfdpLv.pack_length _ _ htv
+  have lov := packOptions_len hov
+  have h4 := headerLen_ge k.fd.header
+  have hwid : (if k.fd.header.largeFileFlagSet = true then 8 else 4) = fssWidth k.fd.header.conf.fileFlag := by
+    unfold PduHeader.largeFileFlagSet fssWidth
+    by_cases hf : k.fd.header.conf.fileFlag = 1 <;> simp [hf]
+  rw [hwid] at lsz
+  have hlen : b0.length = k.fd.header.headerLen + 1 + 1 + fssWidth k.fd.header.conf.fileFlag + k.srcLv.packetLen
+      + k.dstLv.packetLen + optionsLen (optList k.options) + (if k.fd.header.conf.crcFlag = 1 then 2 else 0) := by
+    rw [← eb, withCrc_length]
+    simp only [List.length_append, List.length_cons, List.length_nil, ld, lsz, lsv, ltv, lov]
+  have hfield : (b0.drop 1).take 2 =
+      [u8 (k.fd.header.dataFieldLen / 256 % 256), u8 (k.fd.header.dataFieldLen % 256)] := by
+    rw [← eb, withCrc_len_field _ _ (by simp only [List.length_append, ld]; omega), List.append_assoc,
+      List.append_assoc, List.append_assoc, List.append_assoc, List.drop_append_of_le_length (by omega),
+      List.take_append_of_le_length (by simp; omega), lf]
+  have hpl : k.packetLen = k.fd.header.dataFieldLen + k.fd.header.headerLen := rfl
+  have hd' : k.fd.header.dataFieldLen = 1 + fssWidth k.fd.header.conf.fileFlag + k.srcLv.packetLen + k.dstLv.packetLen
+      + optionsLen (optList k.options) + (if k.fd.header.conf.crcFlag = 1 then 2 else 0) + 1 := hd
+  refine ⟨by omega, ?_⟩
+  rw [lenfield_val _ _ hle hfield]
+  omega
+
+theorem C11_md_pack_idem (k : Metadata) (b : Bytes) (k' : Metadata) (hp : mdPack k = .ok (b, k')) :
+    k' = k ∧ mdPack k' = .ok (b, k') := by
+  have hk : k' = k := by
+    unfold mdPack at hp
+    obtain ⟨b0, _, hp⟩ := bind_ok_inv hp
+    exact (congrArg Prod.snd (pure_ok_inv hp)).symm
+  subst hk
+  exact ⟨rfl, hp⟩
+
+private theorem md_built_new (k : Metadata) (h : MdBuilt k) :
+    Metadata.new k.fd.header.conf k.closure k.checksumType k.fileSize (some k.srcLv.value) (some k.dstLv.value) k.options
+      = .ok k := by
+  obtain ⟨⟨⟨pt, sm, dfl, ⟨src, dst, seq, tm, ff, crc, dir, sc⟩⟩, code⟩, cl, ct, size, ⟨sv⟩, ⟨dv⟩, opts⟩ := k
+  obtain ⟨⟨hw, hle, hd⟩, h1, h2, h3, h4, h5, h6⟩ := h
+  simp only at hw hle hd h1 h2 h3 h4 h5 h6
+  subst h1 h2 h3 h4 hd
+  rw [Metadata.new_eq]
+  refine (if_neg ?_).trans ?_
+  · simp only [nameOctets]; omega
+  · refine (if_neg ?_).trans rfl
+    simp only [nameOctets]
+    omega
+
+/-- **same as a fresh object**: after any sequence of setter calls on a constructed Metadata PDU,
+    the constructor applied to the object's own final values (file names as their LV octets) gives
+    exactly this object -/
+theorem C11_md_fresh (c : PduConfig) (cl : Bool) (ct : Nat) (size : Int) (src dst : Option Bytes)
+    (opts : Option (List AnyTlv)) (k : Metadata) (h : Metadata.new c cl ct size src dst opts = .ok k) (ops : List MdOp) :
+    Metadata.new (mdMachine.run k ops).fd.header.conf (mdMachine.run k ops).closure (mdMachine.run k ops).checksumType
+      (mdMachine.run k ops).fileSize (some (mdMachine.run k ops).srcLv.value) (some (mdMachine.run k ops).dstLv.value)
+      (mdMachine.run k ops).options = .ok (mdMachine.run k ops) :=
+  md_built_new _ (C11_md_reach k ops (C11_md_init c cl ct size src dst opts k h).1)
+
+end Metadata
+
 /-! ## decode, then continue: decoded objects start inside the invariant as well -/
 section Decoded
 open SpVerif.PusTc SpVerif.PusTm SpVerif.SpacePacket SpVerif.CfdpHeader SpVerif.FileDirective
@@ -1089,9 +1615,9 @@ open SpVerif.CfdpHeader
 /-- **the caller's configuration after a constructor call** — *partial*: in the functional model
     the constructor receives a value, so "not modified" is true by construction (`withCaller`
     returns the caller's argument as it was). What the theorem adds is the other half of the
-    copy-on-construct contract for the three CFDP kinds modelled so far: the object's own
-    configuration is the caller's with the direction forced (NAK, Keep Alive: towards the sender;
-    File Data: towards the receiver) — so a constructor that stored the caller's object and
+    copy-on-construct contract for the six mutable CFDP kinds: the object's own configuration is the
+    caller's with the direction forced (NAK, Keep Alive, Finished: towards the sender; File Data,
+    EOF, Metadata: towards the receiver) — so a constructor that stored the caller's object and
     then forced the direction on it (the former `NakPdu.__init__`) would have changed the caller's
     `direction`, which is what the tie observes on the real objects. -/
 theorem C11_conf_untouched (c : PduConfig) :
@@ -1100,10 +1626,21 @@ theorem C11_conf_untouched (c : PduConfig) :
     (∀ pr k, KeepAlive.KeepAlive.new c pr = .ok k →
       withCaller c (KeepAlive.KeepAlive.new c pr) = .ok (k, c) ∧ k.fd.header.conf = { c with direction := 1 }) ∧
     (∀ ps p, FileData.Pdu.new c ps = .ok p →
-      withCaller c (FileData.Pdu.new c ps) = .ok (p, c) ∧ p.header.conf = { c with direction := 0 }) := by
+      withCaller c (FileData.Pdu.new c ps) = .ok (p, c) ∧ p.header.conf = { c with direction := 0 }) ∧
+    (∀ cs size fl cond k, Eof.Eof.new c cs size fl cond = .ok k →
+      withCaller c (Eof.Eof.new c cs size fl cond) = .ok (k, c) ∧ k.fd.header.conf = { c with direction := 0 }) ∧
+    (∀ cond dc fs rs fl k, Finished.Finished.new c cond dc fs rs fl = .ok k →
+      withCaller c (Finished.Finished.new c cond dc fs rs fl) = .ok (k, c) ∧
+      k.fd.header.conf = { c with direction := 1 }) ∧
+    (∀ cl ct size src dst opts k, Metadata.Metadata.new c cl ct size src dst opts = .ok k →
+      withCaller c (Metadata.Metadata.new c cl ct size src dst opts) = .ok (k, c) ∧
+      k.fd.header.conf = { c with direction := 0 }) := by
   refine ⟨fun s e segs k h hf => ⟨by rw [h]; rfl, (C11_nak_init c hf s e segs k h).2.2⟩,
     fun pr k h => ⟨by rw [h]; rfl, (C11_ka_init c pr k h).2.2⟩,
-    fun ps p h => ⟨by rw [h]; rfl, (C11_fd_init c ps p h).2.2⟩⟩
+    fun ps p h => ⟨by rw [h]; rfl, (C11_fd_init c ps p h).2.2⟩,
+    fun cs size fl cond k h => ⟨by rw [h]; rfl, (C11_eof_init c cs size fl cond k h).2.2⟩,
+    fun cond dc fs rs fl k h => ⟨by rw [h]; rfl, (C11_fin_init c cond dc fs rs fl k h).2.2.2⟩,
+    fun cl ct size src dst opts k h => ⟨by rw [h]; rfl, (C11_md_init c cl ct size src dst opts k h).2.2.2.2⟩⟩
 
 end Caller
 
